@@ -20,7 +20,7 @@ ASSUMPTIONS = [
     "repeats py312-none-<plat>: theorem C15_sys_tags_python_repeats) and EXT_SUFFIX does not spell the ABI 'none' in another case",
     "'never for free-threaded ABIs' is the code's reading: the FIRST remaining explicit ABI, raw text, any 't' after the digits "
     "(C15_threaded_spec, C15_first_abi_only_counterexample, C15_threaded_raw_text)",
-    "config variables are None or ints (as CPython's sysconfig reports them); EXT_SUFFIX is a str starting with '.' or None "
+    "the ABI config variables are None or ints (as CPython's sysconfig reports them); py_version_nodot is None, a str or an int; EXT_SUFFIX is a str starting with '.' or None "
     "(the empty string makes _generic_abi fail with IndexError: outside the generated domain, visible as GCrash in the model)",
     "NoDup theorems need: no repeated ABI / platform in the caller's lists, 'any' not a platform, interpreter not one of the py* tags "
     "(with platforms=['any'] the real code repeats py3-none-any; forced by the proof, generators for the law cases respect it)",
@@ -104,7 +104,7 @@ def streams(rng, tier):
     for _ in range(n):
         v = rand_pv(rng)
         abis = rand_list(rng, abi_pool(rng, v), [0, 1, 1, 2, 3, 5])
-        ps = rand_list(rng, PLATS, [1, 1, 2, 3, 5])
+        ps = rand_list(rng, PLATS, [1, 1, 2, 3, 5] if q else [1, 1, 2, 3, 5, 8, 11])
         out.append(Case("cpython", "t.cpython", [v, enc_list(abis), enc_list(ps), rand_cfg(rng)]))
         interp = rng.choice(["", "", "cp" + "".join(v.split(".")[:2]), "pp3", "ip27", "py3", "py" + "".join(v.split(".")[:2]), "CP39"])
         out.append(Case("compatible", "t.compat", [v, interp, enc_list(ps)]))
@@ -135,7 +135,7 @@ def streams(rng, tier):
         out.append(Case("compatible-defaults", "t.compatd", [v, interp, enc_list(ps), sv, det]))
         gi = rng.choice(["", "", "", "pp39", "x"])
         name = rng.choice(["cpython", "pypy", "ironpython", "jython", "python", "graalpy", "pyston"])
-        nodot = rng.choice(["N", "N", "S" + sv.replace(".", ""), "S", "S39"])
+        nodot = rng.choice(["N", "N", "S" + sv.replace(".", ""), "S", "S39", "I" + sv.replace(".", ""), "I0", "I27"])
         out.append(Case("generic-defaults", "t.genericd", [gi, enc_list(abis), enc_list(ps), name, nodot, sv, det]))
     # repeated abi3 / none entries (list.remove drops only the first occurrence)
     for _ in range(200 if q else 5000):
@@ -171,7 +171,7 @@ def streams(rng, tier):
     for _ in range(150 if q else 4000):
         name = rng.choice(["cpython", "cpython", "cpython", "pypy", "ironpython", "python", "graalpy", "pp"])
         sv = rng.choice(SYSVERS)
-        nodot = rng.choice(["N", "N", "S" + sv.replace(".", ""), "S", "S39"])
+        nodot = rng.choice(["N", "N", "S" + sv.replace(".", ""), "S", "S39", "I" + sv.replace(".", ""), "I0"])
         out.append(Case("sys-tags-platforms", "t.sysp", [name, nodot, sv, rand_ext(rng), rand_cfg(rng), rand_det(rng, mac_only=True)]))
     for _ in range(120 if q else 3000):
         name = rng.choice(["cpython", "cpython", "cpython", "pypy", "ironpython", "jython", "python", "graalpy", "pyston"])
